@@ -47,7 +47,7 @@ def _real_eigendata(sim):
             setattr(ps, k, np.ascontiguousarray(v.real))
 
 
-def symbolise_sim(ctx, sim, tag=""):
+def symbolise_sim(ctx, sim, tag="", trivial_fft=False):
     """state -> fresh variables w/u/f, every other work array -> fresh scratch variables, tables -> exact constants"""
     from symsopht import graph, stubs_fft
 
@@ -74,8 +74,13 @@ def symbolise_sim(ctx, sim, tag=""):
         graph.symbolise(sim, policy, name="obj")
         ps = getattr(sim, "_unbounded_poisson_solver", None)
         if ps is not None and hasattr(ps, "rfft"):
-            ps.rfft = stubs_fft.RFFTStub()
-            ps.irfft = stubs_fft.IRFFTStub()
+            if trivial_fft:
+                # memory-extent studies (C15b): the transforms are not pystencils kernels; skip their arithmetic
+                ps.rfft = lambda input_array=None, output_array=None, **k: output_array
+                ps.irfft = lambda input_array=None, output_array=None, **k: output_array
+            else:
+                ps.rfft = stubs_fft.RFFTStub()
+                ps.irfft = stubs_fft.IRFFTStub()
         sim.real_t = lambda x: x
     else:
         graph.fill_numeric(sim, policy, lambda n, d: ctx._num(n, d), name="obj")
@@ -113,10 +118,10 @@ class Cut:
         return self.inner(*a, **k)
 
 
-def run_step(ctx, cfg, tag="", cuts=True, stub_poisson=False):
+def run_step(ctx, cfg, tag="", cuts=True, stub_poisson=False, init=None, trivial_fft=False):
     """returns dict with sim, initial state copies, cut records and scalars"""
     sim = build_sim(ctx, cfg)
-    classified = symbolise_sim(ctx, sim, tag)
+    classified = symbolise_sim(ctx, sim, tag, trivial_fft=trivial_fft)
     dim = len(cfg["shape"])
     dt = ctx.scalar(tag + "dt", positive=True, default=0.01)
     nu = ctx.scalar(tag + "nu", positive=True, default=0.1)
@@ -130,9 +135,19 @@ def run_step(ctx, cfg, tag="", cuts=True, stub_poisson=False):
     U = [ctx.scalar(f"{tag}U{a}", default=0.3 * (a + 1)) for a in range(dim)] if cfg.get("free_stream") else [0.0] * dim
     out = dict(sim=sim, dt=dt, nu=nu, rho=rho, t0=t0, U=U, classified=classified, dx=float(sim.dx), dim=dim)
     wname = "primary_field" if cfg["kind"] == "passive" else "vorticity_field"
+    if init is not None:
+        init(sim)
     out["w0"] = getattr(sim, wname).copy()
     out["u0"] = sim.velocity_field.copy()
     out["f0"] = sim.eul_grid_forcing_field.copy() if cfg.get("forcing") else None
+    if cfg["kind"] != "passive" and stub_poisson and not cuts:
+        def fake2(solution_vector_field=None, rhs_vector_field=None, solution_field=None, rhs_field=None):
+            tgt = solution_vector_field if solution_vector_field is not None else solution_field
+            if ctx.sym:
+                tgt[...] = ctx.array(tag + "stubpsi", tgt.shape)
+
+        sim._unbounded_poisson_solver.vector_field_solve = fake2
+        sim._unbounded_poisson_solver.solve = fake2
     if cfg["kind"] != "passive" and cuts:
         out["cut_pen"] = Cut(ctx, sim, "_penalise_field_towards_boundary", "field" if dim == 2 else "vector_field", tag + "cutw")
         ps = sim._unbounded_poisson_solver
